@@ -158,7 +158,7 @@ pub fn conclude(cfg: &CheckCfg, mut agg: Agg, scratch: &Path, started: Instant) 
         ctx.manifest = prop == "C13";
         for (k, rec) in unknown.iter().enumerate() {
             let (minimal, runs) = if k < 12 {
-                let mut sh = Shrinker { ctx: &mut ctx, class: rec.class.clone(), budget: 300, runs: 0 };
+                let mut sh = Shrinker { ctx: &mut ctx, class: rec.class.clone(), budget: if rec.class.ends_with("busy_loop") { 6 } else { 300 }, runs: 0 }; // (a busy-loop run costs the whole CPU cap)
                 let m = sh.minimise(&rec.scenario);
                 (m, sh.runs)
             } else {
